@@ -2,6 +2,8 @@
 // C13 / C14 — dot / sparse / dense 12-wide matrix kernels equal the integer matrix-vector product mod p.
 // Oracle: engine/ref.hpp (unsigned __int128). Operand restrictions documented by a kernel are applied by
 // construction (constrain()), never by filtering.
+#include <map>
+#include <memory>
 #include "../engine/pbt.hpp"
 #include "../engine/gen.hpp"
 #include "../engine/guard.hpp"
@@ -267,8 +269,13 @@ static bool body_mat(const Case &c, Ctx &ctx)
     // the array ends exactly at a guard page (sizes are multiples of 32 bytes, so it is 32-byte aligned); unaligned variants
     // alternate between that placement and a deliberately misaligned one (8 bytes before the guard)
     bool misalign = !want_aligned && (c.v[0] & 1);
-    guard::Buf gb(nb, misalign ? 8 : 0);
-    E *co = gb.as<E>();
+    // the array usually lives in ONE persistent buffer per (size, placement): the same pointer is passed case after case while its content
+    // changes, so that anything keyed on the pointer value (a cached verdict about the matrix, a memo) goes stale at once; now and then a fresh mapping
+    static std::map<std::pair<size_t, size_t>, std::unique_ptr<guard::Buf>> pool;
+    guard::Buf fresh; guard::Buf *gbp = &fresh;
+    if (((c.v[0] >> 1) & 3) != 0) { auto &q = pool[{nb, misalign ? 8 : 0}]; if (!q) q.reset(new guard::Buf(nb, misalign ? 8 : 0)); gbp = q.get(); ctx.cls("mat:coefficient-array-at-a-persistent-address"); }
+    else fresh.alloc(nb, misalign ? 8 : 0);
+    E *co = gbp->as<E>();
     const uint64_t *pc = &c.v[12 * S];
     for (int i = 0; i < k->ncoef; i++) co[i].fe = k->eight ? (pc[i] & 0xFF) : pc[i];
     // expected
